@@ -56,6 +56,11 @@ inductive Exec (p : Plan) : St → List St → Prop
   | nil (s : St) : Exec p s []
   | cons {s s' : St} {l : List St} : s' ∈ succs p s → Exec p s' l → Exec p s (s' :: l)
 
+theorem getLast?_cons_snoc (a x : Act) (l : List Act) : (x :: (l ++ [a])).getLast? = some a := by
+  induction l generalizing x with
+  | nil => simp
+  | cons b t ih => simpa [List.getLast?_cons_cons] using ih b
+
 /-- a failing file leaves a failing read in the writer's script -/
 theorem filesScript_hasFail : ∀ l : List Src, l.any (·.fails) = true → hasFail (filesScript l) = true := by
   intro l
@@ -66,7 +71,9 @@ theorem filesScript_hasFail : ∀ l : List Src, l.any (·.fails) = true → hasF
     simp only [List.any_cons, Bool.or_eq_true] at h
     simp only [filesScript, hasFail, List.any_append, Bool.or_eq_true]
     rcases h with h | h
-    · left; simp [fileScript, h]; split <;> simp
+    · left
+      simp only [fileScript, fileScriptW, h]
+      (repeat' split) <;> simp_all
     · right; exact ih h
 
 end RtVerif.C12
